@@ -274,7 +274,26 @@ impl<T: Qcow2IoOps> Qcow2Dev<T> {
             }
         }
 
-        futures::future::join_all(f_vec).await;
+        // Whatever fails below, the slices picked up here were marked clean
+        // above and have to become dirty again, or they are never written.
+        let redirty = |this: &Self| {
+            for (_, e) in tv {
+                e.set_dirty(true);
+            }
+            this.mark_need_flush(true);
+        };
+
+        let res = futures::future::join_all(f_vec).await;
+        if let Some(Err(err)) = res.into_iter().find(|r| r.is_err()) {
+            // a new cluster could not be zeroed: it stays new (zeroing it
+            // again is harmless, nothing has been written into it yet)
+            for locked_cls in cluster_map.values_mut() {
+                **locked_cls = false;
+            }
+            drop(cache_vec);
+            redirty(self);
+            return Err(err);
+        }
 
         {
             // Release the per-cluster locks before asking for the map's
@@ -310,6 +329,8 @@ impl<T: Qcow2IoOps> Qcow2Dev<T> {
         for r in res {
             if r.is_err() {
                 eprintln!("cache slice write failed {r:?}\n");
+                drop(cache_vec);
+                redirty(self);
                 return r;
             }
         }
@@ -379,7 +400,11 @@ impl<T: Qcow2IoOps> Qcow2Dev<T> {
         while let Some(idx) = rt.pop_dirty_blk_idx(None) {
             let start = idx << self.info.block_size_shift;
             let size = 1 << self.info.block_size_shift;
-            self.flush_table(rt, start, size).await?
+            if let Err(err) = self.flush_table(rt, start, size).await {
+                // not written: queue it again for the next try
+                rt.set_dirty((start as usize) >> 3);
+                return Err(err);
+            }
         }
 
         Ok(())
@@ -404,11 +429,20 @@ impl<T: Qcow2IoOps> Qcow2Dev<T> {
             let start = key_fn((idx as u64) << bs_bits);
             let end = key_fn(((idx + 1) as u64) << bs_bits);
 
-            if self.flush_cache(cache, start, end).await? {
-                // order cache flush and the upper layer table
-                self.call_fsync(0, usize::MAX, 0).await?;
+            let res = async {
+                if self.flush_cache(cache, start, end).await? {
+                    // order cache flush and the upper layer table
+                    self.call_fsync(0, usize::MAX, 0).await?;
+                }
+                self.flush_table(rt, idx << bs_bits, 1 << bs_bits).await
             }
-            self.flush_table(rt, idx << bs_bits, 1 << bs_bits).await?;
+            .await;
+            if res.is_err() {
+                // this block hasn't been written: queue it again, so that the
+                // next flush retries it
+                rt.set_dirty(((idx as usize) << bs_bits) >> 3);
+            }
+            res?;
             Ok(false)
         } else {
             // flush cache without holding top table read lock
